@@ -89,13 +89,9 @@ func ClearsignSplit(data []byte) (text, sig []byte, err error) {
 	if !found {
 		return nil, nil, fmt.Errorf("clearsign: no signature armor")
 	}
+	// NB: the line ending that precedes the signature armor belongs to the
+	// framework (RFC 4880 §7.1); it is still included here and removed by CanonText
 	t := body.Bytes()
-	// the line ending that precedes the signature armor belongs to the framework
-	if bytes.HasSuffix(t, []byte("\r\n")) {
-		t = t[:len(t)-2]
-	} else if bytes.HasSuffix(t, []byte("\n")) {
-		t = t[:len(t)-1]
-	}
 	var rest []byte
 	for ; i < len(lines); i++ {
 		rest = append(rest, lines[i]...)
